@@ -299,9 +299,11 @@ impl KotoVm {
         self.frame_mut().execution_barrier = true;
 
         // Run the chunk
+        let builder_counts = self.builder_counts();
         let result = self.execute_instructions();
         if result.is_err() {
             self.pop_frame(KValue::Null)?;
+            self.truncate_builders(builder_counts);
         }
 
         // Reset the register stack back to where it was at the start of the run
@@ -422,9 +424,11 @@ impl KotoVm {
         } else {
             // Otherwise, execute instructions until this frame is exited
             self.frame_mut().execution_barrier = true;
+            let builder_counts = self.builder_counts();
             let result = self.execute_instructions();
             if result.is_err() {
                 self.pop_frame(KValue::Null)?;
+                self.truncate_builders(builder_counts);
             }
             result
         };
@@ -677,9 +681,11 @@ impl KotoVm {
             // If the call stack size has changed, then an overridden operator in Koto has been
             // called, so continue execution until the call is complete.
             self.frame_mut().execution_barrier = true;
+            let builder_counts = self.builder_counts();
             let result = self.execute_instructions();
             if result.is_err() {
                 self.pop_frame(KValue::Null)?;
+                self.truncate_builders(builder_counts);
             }
             result
         };
@@ -836,7 +842,11 @@ impl KotoVm {
                     return Ok(value);
                 }
                 Err(error) => match self.pop_call_stack_on_error(error.clone(), true) {
-                    Ok((recover_register, ip)) => {
+                    Ok((recover_register, ip, sequence_builder_count, string_builder_count)) => {
+                        // Discard any builders that were abandoned by the error
+                        self.sequence_builders.truncate(sequence_builder_count);
+                        self.string_builders.truncate(string_builder_count);
+
                         // The failed instruction might have truncated the value stack while
                         // preparing a call, so ensure that the frame's registers are available.
                         if self.registers.len() < self.min_frame_registers {
@@ -1134,7 +1144,13 @@ impl KotoVm {
                 catch_offset,
             } => {
                 let catch_ip = self.ip() + catch_offset as u32;
-                self.frame_mut().catch_stack.push((arg_register, catch_ip));
+                let catch_point = (
+                    arg_register,
+                    catch_ip,
+                    self.sequence_builders.len(),
+                    self.string_builders.len(),
+                );
+                self.frame_mut().catch_stack.push(catch_point);
             }
             TryEnd => {
                 self.frame_mut().catch_stack.pop();
@@ -3698,13 +3714,13 @@ impl KotoVm {
         &mut self,
         mut error: Error,
         allow_catch: bool,
-    ) -> Result<(u8, u32)> {
+    ) -> Result<CatchPoint> {
         error.extend_trace(self.instruction_frame());
 
         while let Some(frame) = self.call_stack.last() {
             match frame.catch_stack.last() {
-                Some((error_register, catch_ip)) if allow_catch => {
-                    return Ok((*error_register, *catch_ip));
+                Some(catch_point) if allow_catch => {
+                    return Ok(*catch_point);
                 }
                 _ => {
                     if frame.execution_barrier {
@@ -3798,6 +3814,18 @@ impl KotoVm {
 
     fn truncate_registers(&mut self, len: u8) {
         self.registers.truncate(self.register_base + len as usize);
+    }
+
+    // The sizes of the sequence and string builder stacks
+    fn builder_counts(&self) -> (usize, usize) {
+        (self.sequence_builders.len(), self.string_builders.len())
+    }
+
+    // Discards builders that were left behind by an error,
+    // see builder_counts
+    fn truncate_builders(&mut self, counts: (usize, usize)) {
+        self.sequence_builders.truncate(counts.0);
+        self.string_builders.truncate(counts.1);
     }
 
     fn get_constant_str(&self, constant_index: ConstantIndex) -> &str {
@@ -3983,6 +4011,12 @@ impl<'a, const N: usize> From<&'a [KValue; N]> for CallArgs<'a> {
 // The Map is optional to prevent recursive imports (see Vm::run_import).
 type ModuleCache = HashMap<PathBuf, Option<KMap>, BuildHasherDefault<FxHasher>>;
 
+// A catch point for handling errors, see TryStart
+//
+// Along with the error register and the catch ip, the sizes of the sequence and string builder
+// stacks are kept so that builders that were abandoned by the error can be discarded.
+type CatchPoint = (u8, u32, usize, usize);
+
 // A frame in the VM's call stack
 #[derive(Clone)]
 struct Frame {
@@ -4003,7 +4037,7 @@ struct Frame {
     // When returning to this frame, the register that should receive the return value
     pub return_value_register: Option<u8>,
     // A stack of catch points for handling errors
-    pub catch_stack: Vec<(u8, u32)>, // catch error register, catch ip
+    pub catch_stack: Vec<CatchPoint>,
     // True if the frame should prevent execution from continuing after the frame is exited.
     // e.g.
     //   - a function is being called externally from the VM
